@@ -17,7 +17,8 @@ RULE = (
     "byte-by-byte; every interleaving of fragment deliveries and handler completions; truncation "
     "(EOF) at every byte offset; garbage (oversize header, close sentinel, pickled non-call, "
     "unpicklable bytes) substituted at every message boundary and inside headers; the client side "
-    "with fragmented, reordered, unknown-id and duplicate replies; non-trivial: at least two "
+    "with fragmented, reordered, unknown-id and duplicate replies; every name reachable on a real "
+    "DirectorHandler is refused unless decorated in the source; non-trivial: at least two "
     "calls were in flight at once or a fault was injected"
 )
 ASSUMPTIONS = [
